@@ -29,7 +29,11 @@ impl RecTracer {
         (RecTracer { log: log.clone(), verbose }, log)
     }
     fn push(&self, s: String) {
-        self.log.lock().unwrap_or_else(|e| e.into_inner()).push(s);
+        let mut g = self.log.lock().unwrap_or_else(|e| e.into_inner());
+        // a document that never finishes its macrostep would fill the memory
+        if g.len() < 400_000 {
+            g.push(s);
+        }
     }
 }
 
